@@ -69,9 +69,10 @@ def _csv_records(s: str) -> Tuple[Optional[List[List[str]]], Optional[str]]:
     records: List[List[str]] = []
     fields: List[str] = []
     i, n = 0, len(s)
-    line = 1
+    any_quoted = False  # does the current record contain a quoted field?
     while i < n:
         if s[i] == '"':
+            any_quoted = True
             j = s.find('"', i + 1)
             if j < 0:
                 return None, f"malformed CSV: unterminated quoted field in record {len(records) + 1}"
@@ -98,16 +99,18 @@ def _csv_records(s: str) -> Tuple[Optional[List[List[str]]], Optional[str]]:
                 fields.append("")
                 records.append(fields)
                 fields = []
+                any_quoted = False
             continue
         # newline or EOF: the record ends (a missing final newline is tolerated; it has no
         # bearing on the column-count rule)
         if i < n:
             i += 1
-        if len(fields) == 1 and fields[0] == "":
+        if len(fields) == 1 and fields[0] == "" and not any_quoted:
+            # an empty line; note that the one-field record '""' is NOT empty
             return None, f"malformed CSV: empty record {len(records) + 1}"
         records.append(fields)
         fields = []
-        line += 1
+        any_quoted = False
     if fields:
         records.append(fields)
     return records, None
